@@ -182,6 +182,13 @@ func (ts *timeSeries) AddWithTime(observation Observable, t time.Time) {
 	if t.After(ts.pendingTime) {
 		ts.advance(t)
 		ts.mergePendingUpdates()
+		if !t.After(ts.levels[0].end.Add(-smallBucketDuration)) {
+			// A read (Latest, LatestBuckets) has advanced the levels past t
+			// since the last addition: t is older than the newest bucket,
+			// so it must not go into the pending bucket. File it by its own time.
+			ts.mergeValue(observation, t)
+			return
+		}
 		ts.pendingTime = ts.levels[0].end
 		ts.pending.CopyFrom(observation)
 		ts.dirty = true
